@@ -1,10 +1,11 @@
 CONSTANTS
  Confs <- MCConfs
  FixWaitErr = FALSE
+ Reduce = FALSE
  MCShapes = {"img", "idx2"}
  MCPairs = {"tworeg", "samereg", "reg2dir", "dir2reg"}
- MCOpts <- MCOptsSmoke
- MCFeats <- MCFeatsSmoke
+ MCOpts <- MCOptsDefault
+ MCFeats <- MCFeatsDefault
  MCInit = "corners"
  MCTag0 = {"none", "stale"}
  MCByDigest = {FALSE}
